@@ -573,10 +573,17 @@ class Ctx:
         self.assume(cond if c else z3.Not(cond))
         return bool(c)
 
-    def prove(self, oid, claim, replay=None, text=None, klass="exact", wit_vars=None):
+    def prove(self, oid, claim, replay=None, text=None, klass="exact", wit_vars=None, prefer=None):
         """Obligation: pc => claim. Records result; continues assuming the claim."""
         if isinstance(claim, (list, tuple)):
             claim = z3.And(*[lift(c) for c in claim]) if claim else True
+        if prefer == "algebra" and is_z3(claim):
+            from . import algebra
+            t1 = time.time()
+            if algebra.prove_by_expansion(claim):
+                self.run.ob(oid, core.DISCHARGED, "sympy-expand", time.time() - t1, text=text or f"{oid}: polynomial identity {str(claim)[:800]}", klass=klass)
+                self.assume(claim)
+                return True
         if claim is True or (is_z3(claim) and z3.is_true(z3.simplify(claim))):
             self.run.ob(oid, core.DISCHARGED, "z3", 0.0, text=text or f"{oid}: trivially true on this path", klass=klass)
             return True
@@ -601,7 +608,18 @@ class Ctx:
             self.run.ob(oid, core.FAILED, "z3", dt, detail=detail, witness=wit, replay=replay, text=txt[:1500], klass=klass)
             # a refuted claim is NOT assumed afterwards (it could make the rest of the path vacuous)
             return False
-        # unknown: try cvc5-style fallback via fresh z3 with different tactic
+        # unknown: algebraic back ends first (exact), then a second SMT tactic
+        from . import algebra
+        t1 = time.time()
+        if algebra.prove_by_expansion(claim):
+            self.run.ob(oid, core.DISCHARGED, "sympy-expand", dt + time.time() - t1, text=txt[:1500], klass=klass)
+            self.assume(claim)
+            return True
+        wit = algebra.refute_by_evaluation(self.pc, claim)
+        if wit is not None:
+            self.run.ob(oid, core.FAILED, "exact-evaluation", dt + time.time() - t1, witness=wit, replay=replay, text=txt[:1500], klass=klass,
+                        detail=f"counterexample by exact rational evaluation (satisfies the path condition, falsifies the claim): {wit}")
+            return False
         r2, dt2 = _second_opinion(self.pc, claim, self.interp.timeout_ms)
         if r2 == "unsat":
             self.run.ob(oid, core.DISCHARGED, "z3-nlsat", dt + dt2, text=txt[:1500], klass=klass)
@@ -1057,6 +1075,8 @@ class Exec:
             return  # continue after the loop with the break-state
         except ContinueEx:
             pass
+        if bind_fn is not None and is_z3(ctx.ghost.get("loop_index")):
+            ctx.ghost["loop_index"] = ctx.ghost["loop_index"] + 1  # the generic index advances
         ctx.prove(f"{tag}.preserve", spec.invariant(self))
         if v0 is not None:
             v1 = spec.variant(self)
